@@ -1,6 +1,7 @@
 package props
 
 import (
+	"encoding/json"
 	"fmt"
 	"math"
 	"math/rand"
@@ -169,12 +170,48 @@ func c14Run(c *mon.Ctx) {
 	}
 }
 
+func c14Replay(kind string, raw json.RawMessage) (bool, string) {
+	var cs c14Case
+	if err := json.Unmarshal(raw, &cs); err != nil {
+		return false, "recorded case is not structured (it contained NaN): " + string(raw)
+	}
+	minLat, minLon, maxLat, maxLon := geo.RectFromCenter(cs.Lat, cs.Lon, cs.Meters)
+	rect := []float64{minLat, minLon, maxLat, maxLon}
+	for _, v := range rect {
+		if math.IsNaN(v) {
+			return true, fmt.Sprintf("rectangle %v has NaN", rect)
+		}
+	}
+	if minLat < -90-1e-9 || maxLat > 90+1e-9 || minLon < -180-1e-9 || maxLon > 180+1e-9 {
+		return true, fmt.Sprintf("rectangle %v outside the world bounds", rect)
+	}
+	if len(cs.Probe) == 2 {
+		pl, pn := cs.Probe[0], cs.Probe[1]
+		d := sphere.Dist(cs.Lat, cs.Lon, pl, pn)
+		out := 0.0
+		if pl < minLat {
+			out = (minLat - pl) * math.Pi / 180 * sphere.R
+		}
+		if pl > maxLat {
+			out = math.Max(out, (pl-maxLat)*math.Pi/180*sphere.R)
+		}
+		cl := math.Cos(pl * math.Pi / 180)
+		if pn < minLon || pn > maxLon {
+			ad := func(a, b float64) float64 { return math.Abs(math.Mod(a-b+540, 360) - 180) }
+			out = math.Max(out, math.Min(ad(pn, minLon), ad(pn, maxLon))*math.Pi/180*sphere.R*cl)
+		}
+		return d <= cs.Meters && out > 0.01, fmt.Sprintf("rectangle %v; probe at reference distance %.6f of radius %.6f lies %.4g m outside", rect, d, cs.Meters, out)
+	}
+	return false, fmt.Sprintf("rectangle %v", rect)
+}
+
 func init() {
 	mon.Register(&mon.Prop{
 		ID:          "C14",
 		Rule:        "random (centre, radius) with centres biased to the poles and the antimeridian and radii from {1-2 m, sub-metre, 'disc just reaches the pole' +- nanometres..metres, near half the circumference, boundary values, log-uniform 1 m..20000 km}; each rectangle is checked for NaN and world bounds, for full longitude range when the reference disc reaches a pole by more than 1 cm, and against ~30 reference probes of the disc (cardinal, random and tangent-longitude rim points at several offsets, interior points), each of which must lie inside the rectangle within 1 cm on the ground. A probe counts only if its reference distance from the centre is at most the radius. Non-trivial = distinct tuple near a singular place (disc within 1 km of reaching a pole, radius below 3 m or within 1 km of half the circumference, centre within 0.001 degree of the antimeridian).",
 		Assumptions: []string{"reference: internal/sphere", "no tightness is demanded of the rectangle, only coverage", "known finding F18 (radius below 2 m, overshoot below 3 cm) is matched with both bounds"},
 		Run:         c14Run,
+		Replay:      c14Replay,
 		MustSee:     []string{"probes_in_disc", "discs_reaching_a_pole", "sub_metre_radii"},
 	})
 }
